@@ -332,7 +332,10 @@ pub fn mix(a: u64, b: u64) -> u64 {
     z ^ (z >> 31)
 }
 
-const VERIF: &str = "/verif";
+/// Root directory for known findings, replays, evidence, logs (KVH_ROOT overrides it for scratch runs).
+fn verif_root() -> String {
+    std::env::var("KVH_ROOT").unwrap_or_else(|_| "/verif".to_string())
+}
 
 impl Session {
     /// Parse `--tier`, `--seed`, `--replay`, `--cases`; redirect engine chatter to a log file.
@@ -369,11 +372,11 @@ impl Session {
             i += 1;
         }
         // stdout hygiene: keep the real stdout for verdict lines, send fd 1/2 to a log file
-        std::fs::create_dir_all(format!("{VERIF}/logs")).ok();
+        std::fs::create_dir_all(format!("{}/logs", verif_root())).ok();
         let out = unsafe {
             use std::os::unix::io::FromRawFd;
             let saved = libc::dup(1);
-            let log = std::ffi::CString::new(format!("{VERIF}/logs/{id}.{}.log", tier.name())).unwrap();
+            let log = std::ffi::CString::new(format!("{}/logs/{id}.{}.log", verif_root(), tier.name())).unwrap();
             let fd = libc::open(log.as_ptr(), libc::O_WRONLY | libc::O_CREAT | libc::O_TRUNC, 0o644);
             if fd >= 0 {
                 libc::dup2(fd, 1);
@@ -384,7 +387,7 @@ impl Session {
         };
         install_panic_hook();
 
-        let known: Vec<KnownFinding> = std::fs::read_to_string(format!("{VERIF}/known_findings.json"))
+        let known: Vec<KnownFinding> = std::fs::read_to_string(format!("{}/known_findings.json", verif_root()))
             .ok()
             .and_then(|s| serde_json::from_str::<Value>(&s).ok())
             .and_then(|v| v.get("findings").cloned())
@@ -407,7 +410,7 @@ impl Session {
 
         let mut regressions = Vec::new();
         if replay.is_none() {
-            if let Ok(rd) = std::fs::read_dir(format!("{VERIF}/replays/{id}")) {
+            if let Ok(rd) = std::fs::read_dir(format!("{}/replays/{id}", verif_root())) {
                 let mut files: Vec<_> = rd.filter_map(|e| e.ok()).map(|e| e.path()).filter(|p| p.extension().map(|x| x == "json").unwrap_or(false)).collect();
                 files.sort();
                 for p in files {
@@ -826,7 +829,7 @@ impl Session {
             self.violations = best.into_values().collect();
         }
         if !self.violations.is_empty() {
-            std::fs::create_dir_all(format!("{VERIF}/out/violations/{}", self.id)).ok();
+            std::fs::create_dir_all(format!("{}/out/violations/{}", verif_root(), self.id)).ok();
         }
         for v in &self.violations {
             let body = ReplayFile { property: self.id.to_string(), part: v.part.clone(), case: v.case.clone(), failures: v.failures.clone(), note: format!("found tier={} seed={}", self.tier.name(), self.seed) };
@@ -834,7 +837,7 @@ impl Session {
             let path = match &self.replay_path {
                 Some(p) => p.clone(),
                 None => {
-                    let p = format!("{VERIF}/out/violations/{}/{:016x}.json", self.id, fnv(&serde_json::to_string(&v.case).unwrap_or_default()));
+                    let p = format!("{}/out/violations/{}/{:016x}.json", verif_root(), self.id, fnv(&serde_json::to_string(&v.case).unwrap_or_default()));
                     std::fs::write(&p, &text).ok();
                     p
                 }
@@ -868,10 +871,10 @@ impl Session {
             "known_findings_reproduced": self.known_seen.keys().collect::<Vec<_>>(),
         });
         if self.replay.is_none() {
-            std::fs::create_dir_all(format!("{VERIF}/evidence")).ok();
-            let tmp = format!("{VERIF}/evidence/.{}.json.tmp", self.id);
+            std::fs::create_dir_all(format!("{}/evidence", verif_root())).ok();
+            let tmp = format!("{}/evidence/.{}.json.tmp", verif_root(), self.id);
             std::fs::write(&tmp, serde_json::to_string_pretty(&ev).unwrap()).ok();
-            std::fs::rename(&tmp, format!("{VERIF}/evidence/{}.json", self.id)).ok();
+            std::fs::rename(&tmp, format!("{}/evidence/{}.json", verif_root(), self.id)).ok();
         }
         let known = self.known.clone();
         for k in known.iter().filter(|k| k.status == "open") {
